@@ -39,8 +39,9 @@ type worker struct {
 	inC   io.Closer
 	out   *bufio.Reader
 	errb  *tailBuf
-	dir   string
-	known map[string]bool
+	dir    string
+	known  map[string]bool
+	served int
 }
 
 type pool struct {
@@ -85,6 +86,7 @@ func (w *worker) start() error {
 	w.cmd.Stderr = w.errb
 	w.in, w.inC, w.out = bufio.NewWriterSize(stdin, 1<<16), stdin, bufio.NewReaderSize(stdout, 1<<20)
 	w.known = map[string]bool{}
+	w.served = 0
 	return w.cmd.Start()
 }
 
@@ -133,8 +135,17 @@ func classifyDeath(stderr string, timedOut bool) (died, op string) {
 }
 
 // run executes one job on this worker (restarting it when needed).
+// recycleAfter: a worker is replaced after this many cases so that its virtual size (counted by
+// RLIMIT_AS: arenas reserved by the Go heap, cgo/zstd allocations, 4 MiB iteration buffers kept
+// alive by GOGC=800) cannot creep up to the cap over a long run.
+const recycleAfter = 300
+
 func (w *worker) run(p *pool, j *job, limit time.Duration) {
 	j.died, j.diedOp, j.res = "", "", Result{}
+	if w.cmd != nil && w.served >= recycleAfter {
+		w.stop()
+	}
+	w.served++
 	if w.cmd == nil {
 		if err := w.start(); err != nil {
 			j.died = "crash:cannot-start-worker " + err.Error()
@@ -214,10 +225,15 @@ func (p *pool) runAll(jobs []*job) {
 	wg.Wait()
 	// a timeout under a loaded machine is not a hang: re-run those cases alone with a long limit
 	for _, j := range jobs {
-		if j.died == "timeout" || j.died == "crash:unknown" {
+		if j.died == "timeout" || j.died == "crash:unknown" || j.died == "oom" {
 			// (a worker that vanished without a panic / fatal trace -- e.g. killed from outside -- is
-			// re-run as well: only a reproducible death is an outcome)
+			// re-run as well, and so is a memory-exhaustion death: a worker that has served thousands
+			// of cases can run into its address-space cap on an ordinary 4 MiB allocation.  Only a
+			// death that reproduces in a FRESH worker, alone, is an outcome; a size field that really
+			// drives a multi-GiB allocation reproduces every time.)
+			p.ws[0].stop()
 			p.ws[0].run(p, j, hangRecheck)
+			p.ws[0].stop()
 		}
 	}
 }
